@@ -70,6 +70,14 @@ def check(c):
         _, y2 = tr.get_fct_inv().transform(None, y1)
         if not numpy.array_equal(y2, y):
             return dict(**{"class": "permutation-round-trip"}, what="labels not restored")
+        # the same instance fitted again on other labels (after it was used): nothing of the first fit may survive
+        y_b = (labels[::-1] * 2 + 1)[rs.randint(0, len(labels), 40)]
+        y_b[:len(labels)] = labels[::-1] * 2 + 1
+        tr.fit(None, y_b)
+        _, yb1 = tr.transform(None, y_b)
+        _, yb2 = tr.get_fct_inv().transform(None, yb1)
+        if not numpy.array_equal(yb2, y_b):
+            return dict(**{"class": "refit-round-trip"}, what="labels not restored after the instance was fitted a second time")
         yf = y.astype(float)
         yf[3] = numpy.nan
         tf = PermutationReciprocalTransformer(random_state=c["random_state"]).fit(None, yf)
